@@ -61,7 +61,7 @@ def run(ctx):
     skip_mc = bool(os.environ.get("VERIF_C13_SKIP_MC"))
     beh_cache = os.environ.get("VERIF_C13_BEH")
     if skip_mc:
-        mc = [j for j in mc if j[0].startswith("emit") or j[0] == "asis"]
+        mc = [j for j in mc if j[0].startswith("emit")]
     if beh_cache and os.path.exists(beh_cache):
         mc = [j for j in mc if not j[0].startswith("emit")]
     results = {}
@@ -74,7 +74,14 @@ def run(ctx):
         r["wall"] = time.time() - t
         return name, r
 
-    ov = ctx.harness_overlay(PKG_S, PKG_B, "gcrypto/zzverifc13", PKG_T)
+    # overlay only this check's own harness files (other checks keep files in the same package directories)
+    mapping = {}
+    for pkg in (PKG_S, PKG_B, "gcrypto/zzverifc13", PKG_T, "internal/verifcommon"):
+        d = os.path.join(vlib.HARNESS, pkg)
+        for fn in sorted(os.listdir(d)):
+            if fn.endswith(".go") and (fn.startswith("zz_verif_c13_") or pkg == "internal/verifcommon"):
+                mapping[os.path.join(pkg, fn)] = os.path.join(d, fn)
+    ov = ctx.overlay(mapping)
     bins = {"simple": (PKG_S, "^TestVerifC13Simple$"), "bls": (PKG_B, "^TestVerifC13BLS$"), "tsi": (PKG_T, "^TestVerifC13Finalizer$")}
     paths = {}
 
@@ -95,7 +102,7 @@ def run(ctx):
             paths[name] = b
     for name, r in results.items():
         ctx.log("TLC %-13s %9d transitions %7d distinct states  %.0fs" % (name, r.get("states", 0), r.get("distinct", 0), r["wall"]))
-    if not results["asis"]["violated"] or "NoPanic" not in results["asis"]["out"]:
+    if "asis" in results and (not results["asis"]["violated"] or "NoPanic" not in results["asis"]["out"]):
         raise vlib.Inconclusive("SigProof_asis.cfg: the as-is model (named deviations on) did not produce the NoPanic counterexample")
     mc_states = sum(r.get("distinct", 0) for n, r in results.items() if n.startswith("mc") or n.startswith("clone"))
     mc_trans = sum(r.get("states", 0) for n, r in results.items() if n.startswith("mc") or n.startswith("clone"))
